@@ -6,5 +6,7 @@ INVARIANT CloneNeverTruncatesOnOpen
 INVARIANT CloneTouchesOnlyOutput
 INVARIANT CompressLeavesOnlyArchive
 INVARIANT SuccessMeansSource
+INVARIANT LateFailureKeepsOutput
+INVARIANT RaceRefused
 POSTCONDITION Post
 CHECK_DEADLOCK TRUE
